@@ -2078,8 +2078,8 @@ theorem valid_of_dagInit (c : Ctx) (s : St) (obs : List Obs) (d : DagRef) (below
     · exact obs_dagLaunch _ _ _ _ _ _ _ (by simp)
 
 
-theorem reducedRef_flags {P : Program} {s : St} {src dst : Node} {d : DagRef}
-    (h : reducedRef P s src dst false false false = some d) : d.isRec = false ∧ d.isOneof = false := by
+theorem reducedRef_flags {P : Program} {s : St} {src dst : Node} {nst : Bool} {d : DagRef}
+    (h : reducedRef P s src dst false false nst = some d) : d.isRec = false ∧ d.isOneof = false := by
   unfold reducedRef at h
   simp only [] at h
   split at h
@@ -2100,7 +2100,7 @@ theorem struct_switchStart {P : Program} {depth : Node → Nat} (hp : LiveP P de
   rw [hcP] at hv ⊢
   cases hsel : switchSelect P s S with
   | none =>
-    simp only [hsel] at hv ⊢
+    simp only [hsel, hno, Bool.false_eq_true, if_false] at hv ⊢
     unfold raiseOut
     simp only [unwindFrames]
     have hself : (notify s .run).tasks[c.t]? = some tkt := by
@@ -2113,7 +2113,7 @@ theorem struct_switchStart {P : Program} {depth : Node → Nat} (hp : LiveP P de
     have hs2 := struct_setSw hp hs htkt hnm hS hf0 hno hst hsel
     obtain ⟨e0, he0, heu, hev, hcase⟩ := switchSelect_edge hsel
     obtain ⟨sub, hsub, hdst, hcn, hclosed, hdepth⟩ :=
-      hp.dagsOK (s.setSw S (l, cn)) cn (Or.inr ⟨e0, he0, heu, by rw [hcase]; rfl⟩)
+      hp.dagsOK (s.setSw S (l, cn)) cn d.isNested (Or.inr ⟨e0, he0, heu, by rw [hcase]; rfl⟩)
     obtain ⟨hf1, hf2⟩ := reducedRef_flags hsub
     simp only [hsub] at hv ⊢
     have hdag : DagOK P sub := ⟨hf1, hf2, hclosed⟩
